@@ -405,7 +405,13 @@ def run(ctx):
     r9 = borrow(k6, "C03.R9", "a reference to a null key follows the inherits chain hop by hop",
                 "`walking from the locale itself through its inherits chain`: the value a reference reads for a null key is the fallback value; a walk that "
                 "asks for the parent of the starting locale at every hop leaves the chain after one hop", only=r"resolve_foreign_key_inner", floor=1)
-    return [r1, r2_recording(ctx, prog), r3_walk(ctx, prog), r4_generators(ctx), r5_default_never_defaults(ctx), r6_single_fallback(ctx, prog), r7, r8, r9]
+    # `a locale that actually defines the key`: a value that is (or reduces to) the empty string defines it; only null / absent fall back
+    # (reduce evaluated on values that reduce to nothing, shared with C01.R3)
+    from rules import c01
+    r10 = borrow(c01.r3_join(ctx), "C03.R10", "a value that reduces to the empty string still defines its key",
+                 "`the first locale in the chain that actually defines the key`: an empty translation is a translation; if reducing `$t(empty)` produced the "
+                 "explicit default, the key would silently take the parent locale's text", only=r"reduce", floor=1)
+    return [r1, r2_recording(ctx, prog), r3_walk(ctx, prog), r4_generators(ctx), r5_default_never_defaults(ctx), r6_single_fallback(ctx, prog), r7, r8, r9, r10]
 
 
 MANIFEST_ENTRY = {
